@@ -284,11 +284,12 @@ def part_b(ck):
         return real, [L.opdesc(so, schedule) for so in sched_ops]
 
     def conv_op(H, W, C, k, s, d, mode, step, slices, OC=None, stepw=None, pool=False, conv=True, wo=None, full=None):
-        kern = Kernel(k, k, s, s, d, d)
+        dh, dw = d if isinstance(d, tuple) else (d, d)        # d = (height dilation, width dilation)
+        kern = Kernel(k, k, s, s, dw, dh)
         pad, skirt = tgo.calc_padding_and_skirt(Padding.SAME if mode == 0 else Padding.VALID, kern, Shape4D([1, H, W, C]), None)
-        kd = (k - 1) * d + 1
+        kd = (k - 1) * dh + 1
         OH = (H + pad[0] + pad[2] - kd) // s + 1
-        OW = (W + pad[1] + pad[3] - kd) // s + 1
+        OW = (W + pad[1] + pad[3] - ((k - 1) * dw + 1)) // s + 1
         if OH < 1 or OW < 1:
             return None
         OC = OC or C
@@ -363,6 +364,10 @@ def part_b(ck):
         casc = rng.sample(casc[:-4], 1500) + extra
     for _ in range(300 if not ck.thorough else 3000):
         casc.append((rng.randint(4, 80), rng.randint(1, 9), rng.randint(1, 5), rng.randint(1, 7), rng.randint(1, 3), rng.randint(1, 2), rng.randint(0, 1)))
+    # asymmetric dilation (height factor != width factor): the generator has to take the HEIGHT factor of attrs["dilation"]
+    for _ in range(400 if not ck.thorough else 4000):
+        casc.append((rng.randint(8, 60), rng.randint(1, 6), rng.randint(1, 3), rng.choice([2, 3, 3, 5]), rng.choice([1, 1, 2]),
+                     rng.choice([(1, 2), (2, 1), (3, 1), (1, 3), (2, 3), (3, 2)]), rng.randint(0, 1)))
     n_b2 = 0
     for (H, p, q, k, s, d, mode) in casc:
         W, C = 4, 8
@@ -379,6 +384,9 @@ def part_b(ck):
                 ops.append(m2)
         real, ds = run(ops, ("cascade", H, p, q, k, s, d, mode, len(ops)))
         n_b2 += 1
+        if isinstance(d, tuple):
+            ck.count("B_cascades_asymmetric_dilation")
+        add_receptive(spec, spec_meta, real, ops)
         add_rolling(spec, spec_meta, real, ops, ds, cascade_builder, architecture_allocator, Kernel, Shape4D, resampling_mode)
     outs = ck.model(reqs)
     dis = [i for i, (m, r) in enumerate(zip(outs, reals)) if m != r]
@@ -386,7 +394,7 @@ def part_b(ck):
     ck.count("B_cascades", n_b2)
     ck.count("B_real_generator_exceptions", sum(1 for r in reals if " err:" in r))
     sp = ck.model(spec) if spec else []
-    bad = [(i, o) for i, o in enumerate(sp) if o not in ("1", "ok")]
+    bad = [(i, o) for i, o in enumerate(sp) if not (o in ("1", "ok") or o.startswith("recv=1 cov=1"))]
     return dict(reqs=reqs, reals=reals, outs=outs, dis=dis, metas=metas, spec=spec, spec_meta=spec_meta, spec_out=sp, spec_bad=bad)
 
 
@@ -416,6 +424,27 @@ def add_partition(spec, spec_meta, real, d, meta):
     spec_meta.append(("partition", meta))
 
 
+def dil_h(m):
+    return m.dilation[0] if isinstance(m.dilation, (tuple, list)) else m.dilation
+
+
+def add_receptive(spec, spec_meta, real, ops):
+    """Lean receptive-field Spec (rows) for every stripe the REAL generator emitted for mock operators, with the operator's true
+    height dilation and original top padding; the pads are what create_padding hands on (explicit ones for a one-stripe operator)"""
+    cmds, err = parse_cmds(real)
+    if err is not None:
+        return
+    for c in cmds:
+        m = ops[c["op"]]
+        if getattr(m, "pad", None) is None or m.elementwise or m.pool:
+            continue
+        OH = m.ofm_shape[1]
+        pt, pb = (m.pad[0], m.pad[2]) if (c["y0"] == 0 and c["y1"] >= OH) else (c["pt"], c["pb"])
+        spec.append(f"recv {m.kernel_h} {m.stride} {dil_h(m)} {m.pad[0]} {m.ifm_shape[1]} 0 1 0 {c['y0']} {c['y1'] - c['y0']} {c['ifm'][1]} {c['ifm'][5]} {pt} {pb}")
+        spec_meta.append(("recv", dict(op=c["op"], ifm=m.ifm_shape, ofm=m.ofm_shape, k=m.kernel_h, s=m.stride, dilation=m.dilation, pad=m.pad, skirt=m.skirt,
+                                       step=m.step, stripe=[c["y0"], c["y1"]], ifm_rows=[c["ifm"][1], c["ifm"][5]], cmd_pads=[c["pt"], c["pb"]])))
+
+
 def add_rolling(spec, spec_meta, real, ops, ds, cascade_builder, architecture_allocator, Kernel, Shape4D, resampling_mode):
     cmds, err = parse_cmds(real)
     if err is not None:
@@ -425,14 +454,14 @@ def add_rolling(spec, spec_meta, real, ops, ds, cascade_builder, architecture_al
     stor, info = [], []
     for i in range(len(ops) - 1):
         pm, cm = ops[i], ops[i + 1]
-        kd = (cm.kernel_h - 1) * cm.dilation + 1
+        kd = (cm.kernel_h - 1) * dil_h(cm) + 1
         w_, h_ = architecture_allocator.get_ifm_area_required(Shape4D([1, cm.step[0], cm.step[1], 8]), Kernel(kd, kd, cm.stride, cm.stride, 1, 1),
                                                               resampling_mode.NONE)
         c_h = min(int(h_), cm.ifm_shape[1])
         from types import SimpleNamespace as NS_
         if hasattr(cascade_builder, "ifm_box_overread"):
             over_ = [int(cascade_builder.ifm_box_overread(NS_(parent_op=NS_(attrs={"skirt": tuple(cm.skirt)}),
-                                                              kernel=Kernel(cm.kernel_h, cm.kernel_h, cm.stride, cm.stride, cm.dilation, cm.dilation))))]
+                                                              kernel=Kernel(cm.kernel_h, cm.kernel_h, cm.stride, cm.stride, dil_h(cm), dil_h(cm)))))]
         else:       # tree without the rolling-buffer repair: the buffer it really allocates is judged by the simulation
             over_ = []
         shp = cascade_builder.rolling_buffer_shape(Shape4D([1, pm.step[0], pm.step[1], 8]), Shape4D([1, c_h, min(int(w_), cm.ifm_shape[2]), 8]), *over_)
@@ -444,7 +473,7 @@ def add_rolling(spec, spec_meta, real, ops, ds, cascade_builder, architecture_al
     acc = []
     for c in cmds:
         m = ops[c["op"]]
-        kd = (m.kernel_h - 1) * m.dilation + 1
+        kd = (m.kernel_h - 1) * dil_h(m) + 1
         ext = (c["y1"] - c["y0"] - 1) * m.stride + kd - c["pt"] - c["pb"]
         a = c["ifm"][1]
         rT = c["op"]
@@ -533,7 +562,7 @@ def part_c(ck):
         [("known_pad_tall", 0, 0), ("known_odd_upscale", 0, 0)]
     n = 320 if not ck.thorough else 8000
     profiles = ["cascade_chain", "c10_pad_tall", "cascade", "c10_pool_chain", "c10_upscale", "c10_slice", "c10_dilated", "mixed",
-                "cascade_chain", "elementwise", "weights", "c10_pool_chain", "c10_slice_upscale"]
+                "cascade_chain", "elementwise", "weights", "c10_pool_chain", "c10_slice_upscale", "c10_asym_dilation", "c10_asym_dilation"]
     outs = pipe_common.run_corpus(ck, n, profiles=profiles, want={"extra": L.extract})
     reqs, owners = [], []      # Lean Spec requests on real artefacts
     corr, corr_real, corr_owner = [], [], []   # model == real (issue order, create_padding)
@@ -543,8 +572,25 @@ def part_c(ck):
         ck.count("C_status_" + str(o.get("status", "harness-exception")))
         if "harness_exception" in o:
             raise common.InfraError("pipeline worker failed:\n" + o["harness_exception"])
+        src_conv = {}
+        for dline in ((o.get("desc") or {}).get("desc") or []):
+            if isinstance(dline, str) and dline.startswith("src_conv="):
+                import json as _json
+                src_conv = _json.loads(dline[len("src_conv="):])
         for si, st in enumerate(o.get("extra") or []):
             recs = st["stripes"]
+            for rec in recs:
+                # kernel geometry of the reference = the SOURCE operator's options (not what Vela derived from them)
+                sc = src_conv.get(rec.get("name")) if not rec["dma"] else None
+                if sc is not None and rec["type"] in ("Conv2DBias", "DepthwiseConv2DBias", "Conv2D") and [rec["kh"], rec["kw"]] == sc[:2]:
+                    if [rec["sy"], rec["sx"], rec["dy"], rec["dx"]] != sc[2:]:
+                        ck.count("C_vela_kernel_differs_from_source_options")
+                    rec["sy"], rec["sx"], rec["dy"], rec["dx"] = sc[2:]
+                    rec["src_options"] = True
+                    if sc[4] != sc[5]:
+                        ck.count("C_asym_dilation_stripes")
+                        if not (rec["first"] and rec["last"]):
+                            ck.count("C_asym_dilation_stripes_of_striped_operator")
             byop = {}
             for ri, rec in enumerate(recs):
                 if rec["dma"]:
@@ -629,6 +675,8 @@ def part_c(ck):
                         corr.append("rbs %d %d %d %d %d %d" % (bf["p"][0], bf["p"][1], bf["p"][2], bf["c"][0], bf["c"][1], bf["over"]))
                         corr_real.append("%d %d %d" % (bf["stor"][1], bf["stor"][2], bf["stor"][3]))
                         corr_owner.append(("rbs", o, si, ci))
+    if not ck.counters.get("C_asym_dilation_stripes_of_striped_operator"):
+        raise common.InfraError("no striped operator with dilation_h != dilation_w in this run (profile c10_asym_dilation is meant to provide them)")
     ans = ck.model(reqs) if reqs else []
     cm = ck.model(corr) if corr else []
     return dict(outs=outs, reqs=reqs, owners=owners, ans=ans, corr=corr, corr_real=corr_real, corr_owner=corr_owner, corr_model=cm,
@@ -763,6 +811,10 @@ def report_b(ck, Bp):
             ck.violation(f"Lean rolling-buffer simulation rejects the issue order of the real generator: {o}; buffers {meta[1]}; ops {meta[2]}",
                          {"spec_request": Bp["spec"][i][:3000], "verdict": o, "buffers": meta[1], "ops(ifm,ofm,k,s,d,skirt,step)": meta[2],
                           "replay": "c10_lib.build_mock_cascade + run_real_generator"}, key=key)
+        elif meta[0] == "recv":
+            ck.count("B_receptive_reject")
+            ck.violation(f"Lean Spec (receptive field / box coverage) rejects a stripe the real generator emitted for a mock operator: {o}; {meta[1]}",
+                         {"spec_request": Bp["spec"][i], "verdict": o, "case": meta[1], "replay": "c10_lib.build_mock_cascade + run_real_generator"})
         else:
             ck.count("B_partition_reject")
             ck.violation(f"Lean Spec: the OFM boxes of the real generator do not partition the operator's output: {meta}",
